@@ -274,8 +274,13 @@ def table_val(t):
         else:
             vals = [x if isinstance(x, str) else str(x) for x in s.tolist()]
         cols.append({"name": str(nm), "unit": unit, "values": vals})
-    return {"name": t.name, "destinations": [str(d) for d in t.metadata.destinations],
-            "transposed": bool(t.metadata.transposed), "columns": cols}
+    tv = {"name": t.name, "destinations": [str(d) for d in t.metadata.destinations],
+          "transposed": bool(t.metadata.transposed), "columns": cols}
+    idx = list(t.df.index)
+    if idx != list(range(len(idx))):
+        # row labels are not part of a table, but a replay has to rebuild the frame as it was
+        tv["row_labels"] = [x if isinstance(x, str) else int(x) for x in idx]
+    return tv
 
 
 def table_from_val(tv):
@@ -298,9 +303,12 @@ def table_from_val(tv):
             data[c["name"]] = np.array(v, dtype=object) if v else np.array([], dtype=object)
         else:
             data[c["name"]] = np.array([float(x["f"]) for x in v], dtype="float64")
+    df = pd.DataFrame(data)
+    if tv.get("row_labels") is not None and len(tv["row_labels"]) == len(df):
+        df.index = tv["row_labels"]
     with warnings.catch_warnings():
         warnings.simplefilter("ignore")
-        return Table(pd.DataFrame(data), name=tv["name"], destinations=set(tv["destinations"]), units=units,
+        return Table(df, name=tv["name"], destinations=set(tv["destinations"]), units=units,
                      transposed=tv["transposed"])
 
 
